@@ -50,6 +50,13 @@ func unsignedFacts(t *an.Terms, v ssa.Value, depth int) an.FactSet {
 	case *ssa.BinOp:
 		out = append(out, unsignedFacts(t, x.X, depth-1)...)
 		out = append(out, unsignedFacts(t, x.Y, depth-1)...)
+	case *ssa.Call:
+		// min(a, b, …) / max(…): the operands are part of the expression
+		if b, ok := x.Call.Value.(*ssa.Builtin); ok && (b.Name() == "min" || b.Name() == "max") {
+			for _, a := range x.Call.Args {
+				out = append(out, unsignedFacts(t, a, depth-1)...)
+			}
+		}
 	}
 	return out
 }
